@@ -197,6 +197,20 @@ func (l *lineage) startGenome(kind int) (*genetics.Genome, string) {
 	if kind == -3 {
 		g := modularStart()
 		g.ControlGenes[1].IsEnabled = false // one enabled and one disabled module
+		// module links built through the API carry attributes of their own (the readers only make unit links): a copy has them
+		k := 0
+		for _, cg := range g.ControlGenes {
+			for _, ls := range [][]*network.Link{cg.ControlNode.Incoming, cg.ControlNode.Outgoing} {
+				for _, lk := range ls {
+					k++
+					lk.ConnectionWeight = []float64{0.5, -2, 3, 1}[k%4]
+					lk.IsRecurrent = k%3 == 0
+					if k%2 == 0 {
+						lk.Trait = g.Traits[k%len(g.Traits)]
+					}
+				}
+			}
+		}
 		return g, "modular"
 	}
 	if kind%4 == 3 {
@@ -800,6 +814,189 @@ func (l *lineage) crowdedScenario() {
 	l.stats["crowded-scenarios"]++
 }
 
+
+// oneGenomeTwinScenario: within ONE registry lifetime one lineage of copies acquires a forward link u->v, the recurrent
+// link v->u, loses u->v to a toggle and then acquires v->u again as a FORWARD link: the genome holds both flags of v->u,
+// which are different innovations (C01: ascending numbers, no duplicate link; C03: one meaning per number).
+func (l *lineage) oneGenomeTwinScenario() {
+	start := l.pool[0]
+	saved := l.opts.RecurOnlyProb
+	defer func() { l.opts.RecurOnlyProb = saved }()
+	find := func(g *genetics.Genome, in, out int, rec bool) *genetics.Gene {
+		for _, gn := range g.Genes {
+			if gn.Link.InNode.Id == in && gn.Link.OutNode.Id == out && gn.Link.IsRecurrent == rec {
+				return gn
+			}
+		}
+		return nil
+	}
+	newGene := func(m *member, base *genetics.Genome) *genetics.Gene {
+		have := map[int64]bool{}
+		for _, g := range base.Genes {
+			have[g.InnovationNum] = true
+		}
+		for _, g := range m.g.Genes {
+			if !have[g.InnovationNum] && len(m.g.Genes) == len(base.Genes)+1 {
+				return g
+			}
+		}
+		return nil
+	}
+	// 0. two hidden neurons side by side (a start genome with one neuron has no pair of neurons to join)
+	neurons := 0
+	for _, n := range start.g.Nodes {
+		if n.IsNeuron() {
+			neurons++
+		}
+	}
+	if neurons < 3 {
+		if start = l.duplicate(start); start == nil {
+			return
+		}
+		for k := 0; k < 6 && neurons < 3; k++ {
+			n0 := len(start.g.Nodes)
+			l.mutate(start.gid, start.g, "addnode")
+			neurons += len(start.g.Nodes) - n0
+		}
+	}
+	// 1. a forward link u->v between two different neurons
+	var cur *member
+	var u, v int
+	l.opts.RecurOnlyProb = 0
+	for try := 0; try < 40 && cur == nil; try++ {
+		c := l.duplicate(start)
+		if c == nil {
+			return
+		}
+		l.mutate(c.gid, c.g, "addlink")
+		if g := newGene(c, start.g); g != nil && !g.Link.IsRecurrent && !g.Link.InNode.IsSensor() && g.Link.InNode.Id != g.Link.OutNode.Id {
+			cur, u, v = c, g.Link.InNode.Id, g.Link.OutNode.Id
+		}
+	}
+	if cur == nil {
+		return
+	}
+	// 2. the recurrent link v->u in a copy of it
+	l.opts.RecurOnlyProb = 1
+	var next *member
+	for try := 0; try < 70 && next == nil; try++ {
+		c := l.duplicate(cur)
+		if c == nil {
+			return
+		}
+		l.mutate(c.gid, c.g, "addlink")
+		if g := newGene(c, cur.g); g != nil && g.Link.InNode.Id == v && g.Link.OutNode.Id == u && g.Link.IsRecurrent {
+			next = c
+		}
+	}
+	if next == nil {
+		return
+	}
+	cur, next = next, nil
+	// 3. u->v switched off by a toggle
+	for try := 0; try < 60 && next == nil; try++ {
+		c := l.duplicate(cur)
+		if c == nil {
+			return
+		}
+		l.mutate(c.gid, c.g, "toggle")
+		if g := find(c.g, u, v, false); g != nil && !g.IsEnabled {
+			same := true
+			for i, gn := range c.g.Genes {
+				if gn.InnovationNum != g.InnovationNum && gn.IsEnabled != cur.g.Genes[i].IsEnabled {
+					same = false
+				}
+			}
+			if same {
+				next = c
+			}
+		}
+	}
+	if next == nil {
+		return
+	}
+	cur = next
+	// 4. v->u once more, now as a forward link (no path from u to v is left that would make it recurrent)
+	l.opts.RecurOnlyProb = 0
+	for try := 0; try < 70; try++ {
+		c := l.duplicate(cur)
+		if c == nil {
+			return
+		}
+		l.mutate(c.gid, c.g, "addlink")
+		if len(c.g.Genes) == len(cur.g.Genes)+1 && find(c.g, v, u, false) != nil && find(c.g, v, u, true) != nil {
+			l.stats["one-genome-twin-scenarios"]++
+			return
+		}
+	}
+}
+
+// resplitScenario: one genome, one registry lifetime: a gene is split, switched on again by re-enable and split a second
+// time (the recorded innovation is already in the genome: the mutation must not apply it twice).
+func (l *lineage) resplitScenario() {
+	start := l.pool[0]
+	for try := 0; try < 6; try++ {
+		c := l.duplicate(start)
+		if c == nil {
+			return
+		}
+		n0 := len(c.g.Nodes)
+		l.mutate(c.gid, c.g, "addnode")
+		if len(c.g.Nodes) != n0+1 {
+			continue
+		}
+		l.mutate(c.gid, c.g, "reenable")
+		for k := 0; k < 12; k++ {
+			l.mutate(c.gid, c.g, "addnode")
+			if k%4 == 3 {
+				l.mutate(c.gid, c.g, "reenable")
+			}
+		}
+		l.stats["resplit-scenarios"]++
+		return
+	}
+}
+
+// bigGenerationScenario: ONE generation in which far more structural innovations are recorded than an ordinary run of a
+// small population sees (three lineages of copies growing by add-node / add-link until the record holds more than `want`
+// entries), followed by repetitions of the very first ones: a copy of the start genome splits its genes again and must
+// be given the numbers recorded at the beginning of the generation.
+func (l *lineage) bigGenerationScenario(want int) {
+	start := l.pool[0]
+	l.pop.VerifClearInnovations()
+	l.emit(map[string]interface{}{"ev": "gen", "reglen": len(l.pop.VerifInnovationsUnsafe())})
+	// the first records: every gene of the start genome that add-node accepts, split in a copy of its own
+	for k := 0; k < 3*len(start.g.Genes)+3; k++ {
+		if c := l.duplicate(start); c != nil {
+			l.mutate(c.gid, c.g, "addnode")
+		}
+	}
+	var chains []*member
+	for k := 0; k < 3; k++ {
+		if c := l.duplicate(start); c != nil {
+			chains = append(chains, c)
+		}
+	}
+	for try := 0; try < 4*want && len(chains) > 0 && len(l.pop.VerifInnovationsUnsafe()) <= want; try++ {
+		c := chains[try%len(chains)]
+		if try%3 == 0 {
+			l.mutate(c.gid, c.g, "addnode")
+		} else {
+			l.mutate(c.gid, c.g, "addlink")
+		}
+	}
+	if len(l.pop.VerifInnovationsUnsafe()) > want {
+		l.stats["big-generation-scenarios"]++
+	}
+	for k := 0; k < 3*len(start.g.Genes)+3; k++ {
+		if c := l.duplicate(start); c != nil {
+			l.mutate(c.gid, c.g, "addnode")
+		}
+	}
+	l.pop.VerifClearInnovations()
+	l.emit(map[string]interface{}{"ev": "gen", "reglen": len(l.pop.VerifInnovationsUnsafe())})
+}
+
 func recordLineage(args []string) int {
 	fs := flag.NewFlagSet("record-lineage", flag.ExitOnError)
 	out := fs.String("out", "", "NDJSON trace file")
@@ -839,6 +1036,11 @@ func recordLineage(args []string) int {
 		l.recurTwinScenario((int(*seed)+s)%2 == 0)
 		l.connectScenario((int(*seed)+s)%2 == 1)
 		l.crowdedScenario()
+		l.oneGenomeTwinScenario()
+		l.resplitScenario()
+		if s == 0 && *seed%3 == 0 { // (every third trace: the events of this scenario carry big genomes)
+			l.bigGenerationScenario(70 + 30*(int(*seed/3)%3))
+		}
 		for i := 0; i < *steps; i++ {
 			l.step()
 		}
